@@ -20,6 +20,29 @@ Theorem C06_lexical : forall (s : setk) (v : pyval) (e : elem),
 Proof. exact lexical_lemma. Qed.
 Print Assumptions C06_lexical.
 
+(* overwriting a carrier that already holds a value (of any type): the attribute set left behind is the one a fresh carrier would
+   get - nothing of the previous value survives - hence the value read back is the last one written.
+   [p] is any state a writer of that carrier can have left ([written_shape]); for SetET / SetCellValue (self.clear() first) any state. *)
+Theorem C06_last_writer_wins : forall (k : setk) (p : elem) (v : pyval),
+  written_shape k p -> model_set_on k (Some p) v = model_set k v.
+Proof. exact last_writer_wins_lemma. Qed.
+Print Assumptions C06_last_writer_wins.
+Theorem C06_overwrite : forall (k : setk) (g : getk) (p : elem) (v : pyval),
+  written_shape k p -> compatible k g = true -> in_domain_for k v = true ->
+  exists e r, model_set_on k (Some p) v = Ok e /\ model_get g e = Ok r /\ same_value v r = true.
+Proof. exact overwrite_roundtrip_lemma. Qed.
+Print Assumptions C06_overwrite.
+Example C06_overwrite_example :
+  exists p, model_set SetMeta (VBool true) = Ok p /\ written_shape SetMeta p /\
+            model_set_on SetMeta (Some p) (VInt 42) = Ok (build_meta t_float [52;50]%N).
+Proof. eexists. repeat split; reflexivity. Qed.
+(* pinned removal list of set_value_and_type (F72): calcext:value of a previous number survives an overwrite through set_value_and_type *)
+Theorem C06_stale_calcext_refuted :
+  exists p e, model_set SetETRaw (VFloat [49;46;53]%N) = Ok p /\ model_set_on_pinned SetETRaw (Some p) (VBool true) = Ok e /\
+              x_value e = Some [49;46;53]%N /\ model_set SetETRaw (VBool true) <> Ok e.
+Proof. exact stale_calcext_value_pinned. Qed.
+Print Assumptions C06_stale_calcext_refuted.
+
 (* CPython's Decimal(str(d)) == d, on the model: every finite Decimal, scientific notation included *)
 Theorem C06_decimal_text_roundtrip : forall d : dec, dec_of_text (str_of_dec d) = Some d.
 Proof. exact dec_text_roundtrip_lemma. Qed.
